@@ -519,7 +519,9 @@ pub fn corpus() -> Vec<Plan> {
         p("readme_table", true, true, vec![addu("usize"), add("toka8"), close(Simple), add("string"), addu("u64"), rm(0), close(Simple), addu("u32"), add("boxstr"), rm(2), close(Simple)]),
         // many fields in one variant (more than serde's tuple arity: clone only) and many variants
         p("many_fields", true, false, vec![add("u8"), add("toka8"), addu("u16"), add("string"), addu("u32"), add("toka3"), addu("u64"), add("tokb8"), add("u8x3"), add("toka16"), addu("u8"), add("vecu32"), add("u16x3"), add("tokah"), addu("u128"), add("boxtok"), add("u8"), add("opttok"), addu("p12"), add("toka8"), close(Simple), rm(3), rm(9), rm(15), add("toka64"), add("u16"), close(Simple)]),
-        p("many_variants", true, true, vec![add("toka8"), addu("u32"), close(Simple), add("string"), close(Simple), rm(0), add("u16"), close(Basic), add("tokb8"), rm(1), close(Simple), rm(2), add("vecu32"), close(Append), add("u8"), rm(3), close(Simple), rm(4), add("toka3"), close(Simple), rm(5), rm(6), add("u64"), close(Simple), add("toka16"), close(Simple)]),
+        p("many_variants", true, true, vec![add("toka8"), addu("u32"), close(Simple), add("string"), close(Simple), rm(0), add("u16"), close(Basic), add("tokb8"), rm(1), close(Simple), rm(2), add("vecu32"), close(Append), add("u8"), rm(3), close(Simple), rm(4), add("toka3"), close(Simple), rm(5), rm(6), add("u64"), close(Simple), add("toka16"), close(AppendReverse), rm(7), add("string"), close(Basic), rm(8), addu("u16"), close(Simple)]),
+        // one name given to four different fields in a row, with all four strategies
+        p("same_name_again", true, true, vec![add("toka8"), add("u32"), close(Simple), rm(0), addn("string", "f0"), close(Basic), rm(2), addn("tokb8", "f0"), close(Append), rm(3), addn("u64", "f0"), add("toka3"), close(AppendReverse), rm(4), addn("vecu32", "f0"), close(Simple)]),
         // a field aligned to 32 bytes (beyond u128 and beyond what malloc guarantees)
         p("over_aligned", true, true, vec![add("u8"), add("al32"), add("toka8"), close(Simple), rm(0), addu("al32"), add("string"), close(Simple), rm(1), add("toka16"), close(Simple)]),
         // scalar kinds with invalid bit patterns, floats, a tuple with padding, nested generics, an array of tokens
